@@ -136,7 +136,9 @@ func newGatedWorld(r *ev.Run, opts *config.PersistOptions, seed int64) *world {
 	return w
 }
 
-func (w *world) gTick() { w.call(callInfo{kind: "tick"}, func() error { w.m.VerifTickDR(); return nil }) }
+func (w *world) gTick() {
+	w.call(callInfo{kind: "tick"}, func() error { w.m.VerifTickDR(); return nil })
+}
 
 func (w *world) gSetDown(ids []uint64) {
 	down := map[uint64]bool{}
@@ -343,6 +345,7 @@ func (w *world) runCell(c gcell, settle time.Duration) {
 	}
 	// the chain of successful writes
 	cur := pre
+	chain := []pair{pre}
 	trace := pre.String()
 	for _, sv := range saves {
 		trace += fmt.Sprintf(" -%s-> %s", sv.By, sv.P.String())
@@ -359,12 +362,30 @@ func (w *world) runCell(c gcell, settle time.Duration) {
 				r.Violation(key("config-update-unexplained-transition"), fmt.Sprintf("UpdateConfig (%s) wrote %v after %v", c.Variant, next, cur), wit())
 			}
 		default:
+			// the tick checks the state in one critical section and switches in a later one: it may act on
+			// any state that was current since it started (a re-issue of async / sync_recover under a fresh
+			// id is not something the statement forbids). Declaring sync is different: the statement ties
+			// it to the reports under the current id.
 			perm := func(cd cond) bool {
 				switch next.State {
 				case stAsync:
-					return cd.AsyncAllowed && cur.State != stAsync
+					if !cd.AsyncAllowed {
+						return false
+					}
+					for _, p := range chain {
+						if p.State != stAsync {
+							return true
+						}
+					}
 				case stRecover:
-					return cur.State == stAsync && cd.CanRecover
+					if !cd.CanRecover {
+						return false
+					}
+					for _, p := range chain {
+						if p.State == stAsync {
+							return true
+						}
+					}
 				case stSync:
 					return cur.State == stRecover && cur.ID == pre.ID && pre.State == stRecover && scanOK
 				}
@@ -380,6 +401,7 @@ func (w *world) runCell(c gcell, settle time.Duration) {
 			}
 		}
 		cur = next
+		chain = append(chain, next)
 	}
 	// failed persist leaves the served state unchanged / persisted before served
 	if served.Mode != modeNow {
